@@ -117,8 +117,13 @@ def x_evm_guardian_set():
         raise Broken("Run: EnablePoller() right after the insertion into w.pending not found")
     if not re.search(r'if len\(w\.pending\) == 0 \{\s*\n\s*w\.ethConn\.DisablePoller\(\)\s*\n\s*\}', run):
         raise Broken("Run: `if len(w.pending) == 0 { w.ethConn.DisablePoller() }` not found")
-    if len(re.findall(r'EnablePoller\(\)', run)) != 1 or len(re.findall(r'DisablePoller\(\)', run)) != 1:
-        raise Broken("Run: EnablePoller / DisablePoller are not called exactly once each")
+    # Run re-entered with messages still pending: the guard of repo commit b274c5a (between the new connector and the log subscription)
+    mg = re.search(r'w\.pendingMu\.Lock\(\)\s*\n\s*if len\(w\.pending\) > 0 \{\s*\n\s*w\.ethConn\.EnablePoller\(\)\s*\n\s*\}\s*\n\s*w\.pendingMu\.Unlock\(\)', run)
+    guard = bool(mg)
+    if guard and not (mw.start() < mg.start() < msub.start()):
+        raise Broken("Run: the `if len(w.pending) > 0 { w.ethConn.EnablePoller() }` guard is not between NewBlockPollConnector and the log subscription")
+    if len(re.findall(r'EnablePoller\(\)', run)) != (2 if guard else 1) or len(re.findall(r'DisablePoller\(\)', run)) != 1:
+        raise Broken("Run: EnablePoller is not called exactly in the log handler%s / DisablePoller not exactly once" % (" and in the restart guard" if guard else ""))
     # the block-time failure of the log handler: errC, return, nothing inserted
     lh = run[run.index("case ev := <-messageC:"):]
     mbt = _one(lh, r'blockTime, err := w\.ethConn\.TimeOfBlockByHash\(timeout, ev\.Raw\.BlockHash\)', "log handler: block time lookup")
@@ -152,13 +157,15 @@ def x_evm_guardian_set():
         raise Broken("pkg/processor: p.gs is assigned in %d places (expected 1: the setC case)" % len(re.findall(r'\bp\.gs\s*=[^=]', allp)))
 
     op = mc.group(1)
-    info.update({"index_compare": op, "store_before_send": store_first, "ticker_seconds": period})
+    info.update({"index_compare": op, "store_before_send": store_first, "ticker_seconds": period, "restart_enables_poller_when_pending": guard})
     out = ["(* fetchAndUpdateGuardianSet: `if w.currentGuardianSet != nil && *(w.currentGuardianSet) %s idx { return nil }` *)" % op,
            "Definition evm_gs_same (a b : Z) : bool := %s." % CMP[op],
            "(* fetchAndUpdateGuardianSet: `w.currentGuardianSet = &idx` %s `w.setChan <- ..` *)" % ("precedes" if store_first else "FOLLOWS"),
            "Definition evm_gs_store_before_send : bool := %s." % ("true" if store_first else "false"),
            "(* Run: `time.NewTicker(%d * time.Second)` *)" % period,
-           "Definition evm_gs_period_s : Z := %d." % period]
+           "Definition evm_gs_period_s : Z := %d." % period,
+           "(* Run, after NewBlockPollConnector: `if len(w.pending) > 0 { w.ethConn.EnablePoller() }` under pendingMu is %s *)" % ("present" if guard else "ABSENT (tree before repo commit b274c5a)"),
+           "Definition evm_restart_enables_poller : bool := %s." % ("true" if guard else "false")]
     return "\n".join(out) + "\n", info
 
 
